@@ -1673,6 +1673,33 @@ func poolSliceHygiene(c *Ctx, g *ssa.Function, short1 string) {
 						asIs = true
 					}
 				}
+				// the list is taken with the LENGTH it comes with (len of this very value) and read by index: when an
+				// earlier call left it longer than this call needs, the old tail is scanned as if it were data
+				oldLength := false
+				{
+					lenUsed, readByIndex := false, false
+					for _, u := range uses {
+						switch x := u.(type) {
+						case *ssa.Call:
+							if calleeName(x) == "builtin:len" {
+								lenUsed = true
+							}
+						case *ssa.IndexAddr:
+							if x.Referrers() != nil {
+								for _, rr := range *x.Referrers() {
+									if l3, isL := rr.(*ssa.UnOp); isL && l3.Op.String() == "*" {
+										readByIndex = true
+									}
+								}
+							}
+						}
+					}
+					oldLength = lenUsed && readByIndex
+				}
+				if oldLength && !asIs {
+					c.bad("STATE", "pool-content:"+short1, ld.Pos(), fmt.Sprintf("%s takes a list from a sync.Pool and works on it at the length it comes with (len of the pooled value, elements read by index), growing it only when it is too short: after a call that needed a longer list the old tail is still there and is read as data", short1))
+					return
+				}
 				if asIs {
 					// ... unless the function also writes the list's elements by index (a re-initialising loop)
 					eachInstr(g, func(j ssa.Instruction) {
